@@ -10,10 +10,10 @@ Property theorems only (helpers: `Lemmas/ReWords.lean`, `Lemmas/Sites.lean`,
 
 * **membership** — facebook / twitter / instagram / telegram: `bool(re.search(RE, hostname))`
   on the *regenerated* regex terms is the whole-label membership of the lower-cased hostname
-  in the domain family (`site_pattern_spec_partial`, for **every** pattern / family pair that
-  passes the decidable check `SiteTableOK`; the four table obligations instantiate it).
-  Partial: hostnames holding one of the four code points that `re.IGNORECASE` folds onto ASCII
-  letters are excluded (`Plain`); the excluded region really fails (`excluded_region_witness`).
+  in the domain family (`site_pattern_spec`, for **every** pattern / family pair that
+  passes the decidable check `SiteTableOK`; the four table obligations instantiate it), for
+  every hostname: the patterns are compiled with `re.IGNORECASE | re.ASCII` (obligation
+  `site_flags_ascii`), so no non-ASCII code point folds onto a letter of a domain.
   YouTube / shorteners / should_resolve: corollaries of C09's `match_spec`, for **every**
   domain list.
 * **non-interference**, **forms agree**, **decoys**: the answer is a function of the parsed
@@ -44,6 +44,15 @@ theorem instagram_table_ok : SiteTableOK INSTAGRAM_DOMAIN_RE INSTAGRAM_DOMAINS =
 
 theorem telegram_table_ok : SiteTableOK TELEGRAM_DOMAIN_RE TELEGRAM_DOMAINS = true := by decide
 
+/-- the four hostname patterns are compiled with `re.IGNORECASE` (2) and `re.ASCII` (256):
+without the latter U+0130, U+0131, U+017F, U+212A would fold onto `i`, `s`, `k` (`twıtter.com`
+taken for `twitter.com`) -/
+theorem site_flags_ascii :
+    (FACEBOOK_DOMAIN_RE_flags / 2 % 2 = 1 ∧ FACEBOOK_DOMAIN_RE_flags / 256 % 2 = 1) ∧
+    (TWITTER_DOMAIN_RE_flags / 2 % 2 = 1 ∧ TWITTER_DOMAIN_RE_flags / 256 % 2 = 1) ∧
+    (INSTAGRAM_DOMAIN_RE_flags / 2 % 2 = 1 ∧ INSTAGRAM_DOMAIN_RE_flags / 256 % 2 = 1) ∧
+    (TELEGRAM_DOMAIN_RE_flags / 2 % 2 = 1 ∧ TELEGRAM_DOMAIN_RE_flags / 256 % 2 = 1) := by decide
+
 /-- the class `/` and the class `[0-9a-zA-Z]` as the translator prints them -/
 def slashClass : CharClass := ⟨false, [(47, 47)]⟩
 def alnumClass : CharClass := ⟨false, [(48, 57), (65, 90), (97, 122)]⟩
@@ -69,75 +78,65 @@ theorem pySearch_spec {r : Re} (hr : noNullRep r = true) (s : Str) :
 
 /-! ## facebook, twitter, instagram, telegram: whole-label membership -/
 
-/-- the full statement: for every hostname (without newline) the search answers the
-whole-label membership of the lower-cased hostname in the family.  False for the regenerated
-patterns as they are: see `excluded_region_witness`. -/
-def FullSiteSpec (r : Re) (P : List DomPat) : Prop :=
-  ∀ h : Str, '\n' ∉ h → (pySearch r h = true ↔ ∃ p ∈ P, UnderPattern p (lower h))
-
 /-- **membership, for every pattern and every domain family** tied by the check
-`SiteTableOK`: on a hostname without the four exotic code points and without newline,
-`bool(re.search(r, hostname))` is true exactly when the lower-cased hostname is an instance of
-one of the family's patterns or a subdomain of one, by whole labels -/
-theorem site_pattern_spec_partial {r : Re} {P : List DomPat} (hok : SiteTableOK r P = true)
-    (h : Str) (hp : Plain h) (hnl : '\n' ∉ h) :
+`SiteTableOK`, and **every hostname** (without newline): `bool(re.search(r, hostname))` is true
+exactly when the lower-cased hostname is an instance of one of the family's patterns or a
+subdomain of one, by whole labels (`lower` is the ASCII case mapping: a non-ASCII character is
+never identified with a letter of the domain) -/
+theorem site_pattern_spec {r : Re} {P : List DomPat} (hok : SiteTableOK r P = true)
+    (h : Str) (hnl : '\n' ∉ h) :
     pySearch r h = true ↔ ∃ p ∈ P, UnderPattern p (lower h) :=
-  site_search_spec_nl hok hp hnl
+  site_search_spec_nl hok h hnl
 
 /-- the same without the newline hypothesis: `$` also matches before a final `"\n"` (only a
 hand-made `SplitResult` can carry such a hostname, `urlsplit` removes newlines) -/
 theorem site_pattern_spec_newline {r : Re} {P : List DomPat} (hok : SiteTableOK r P = true)
-    (h : Str) (hp : Plain h) :
+    (h : Str) :
     pySearch r h = true ↔
       ∃ pre x b, h = pre ++ x ++ b ∧ Boundary pre ∧ Tail b ∧ ∃ p ∈ P, PatMatches p (lower x) :=
-  site_search_spec hok hp
+  site_search_spec hok h
 
 /-- a pattern without wild card is a domain: "at or under" it is "equal to it or ending with
 `.` + it" -/
 theorem underPattern_literal (d h : Str) : UnderPattern (d.map some) h ↔ HostUnder d h :=
   underPattern_literal_iff d h
 
-theorem is_facebook_url_spec_partial (host : Str) (hp : Plain host) (hnl : '\n' ∉ host) :
+theorem is_facebook_url_spec (host : Str) (hnl : '\n' ∉ host) :
     (is_facebook_url_h (some host) = true ↔ ∃ p ∈ FACEBOOK_DOMAINS, UnderPattern p (lower host)) ∧
     is_facebook_url_h none = false :=
-  ⟨site_pattern_spec_partial facebook_table_ok host hp hnl, rfl⟩
+  ⟨site_pattern_spec facebook_table_ok host hnl, rfl⟩
 
-theorem is_twitter_url_spec_partial (host : Str) (hp : Plain host) (hnl : '\n' ∉ host) :
+theorem is_twitter_url_spec (host : Str) (hnl : '\n' ∉ host) :
     (is_twitter_url_h (some host) = true ↔ ∃ p ∈ TWITTER_DOMAINS, UnderPattern p (lower host)) ∧
     is_twitter_url_h none = false :=
-  ⟨site_pattern_spec_partial twitter_table_ok host hp hnl, rfl⟩
+  ⟨site_pattern_spec twitter_table_ok host hnl, rfl⟩
 
-theorem is_instagram_url_spec_partial (host : Str) (hp : Plain host) (hnl : '\n' ∉ host) :
+theorem is_instagram_url_spec (host : Str) (hnl : '\n' ∉ host) :
     (is_instagram_url_h (some host) = true ↔ ∃ p ∈ INSTAGRAM_DOMAINS, UnderPattern p (lower host)) ∧
     is_instagram_url_h none = false :=
-  ⟨site_pattern_spec_partial instagram_table_ok host hp hnl, rfl⟩
+  ⟨site_pattern_spec instagram_table_ok host hnl, rfl⟩
 
-theorem is_telegram_url_spec_partial (host : Str) (hp : Plain host) (hnl : '\n' ∉ host) :
+theorem is_telegram_url_spec (host : Str) (hnl : '\n' ∉ host) :
     (is_telegram_url_h (some host) = true ↔ ∃ p ∈ TELEGRAM_DOMAINS, UnderPattern p (lower host)) ∧
     is_telegram_url_h none = false :=
-  ⟨site_pattern_spec_partial telegram_table_ok host hp hnl, rfl⟩
-
-/-- does some class of the pattern contain U+0131 (dotless i)? -/
-def foldsDotlessI (r : Re) : Bool := !(allCls (fun C => C.neg || C.avoids [305]) r)
-
-/-- **the excluded region really fails**: as long as the regenerated pattern folds U+0131
-onto `i` (what `re.IGNORECASE` does on a `str` pattern), `ınstagram.com` is accepted although
-it is neither `instagram.com` nor a subdomain of it.  (Stated as an implication so that it keeps
-checking once the pattern is compiled with `re.ASCII`.) -/
-theorem excluded_region_witness :
-    foldsDotlessI INSTAGRAM_DOMAIN_RE = true →
-      is_instagram_url_h (some "ınstagram.com".toList) = true ∧
-      ¬ HostUnder "instagram.com".toList (lower "ınstagram.com".toList) ∧
-      ¬ Plain "ınstagram.com".toList := by
-  unfold HostUnder
-  decide
+  ⟨site_pattern_spec telegram_table_ok host hnl, rfl⟩
 
 /-- **case**: upper-casing the (ASCII letters of the) hostname does not change the answer -/
 theorem site_case_insensitive {r : Re} {P : List DomPat} (hok : SiteTableOK r P = true)
-    (h : Str) (hp : Plain h) (hnl : '\n' ∉ h) : pySearch r (upper h) = pySearch r h := by
-  rw [Bool.eq_iff_iff, site_pattern_spec_partial hok h hp hnl,
-    site_pattern_spec_partial hok (upper h) (plain_upper hp) (fun hm => hnl (nl_mem_upper.1 hm)),
-    lower_upper]
+    (h : Str) (hnl : '\n' ∉ h) : pySearch r (upper h) = pySearch r h := by
+  rw [Bool.eq_iff_iff, site_pattern_spec hok h hnl,
+    site_pattern_spec hok (upper h) (fun hm => hnl (nl_mem_upper.1 hm)), lower_upper]
+
+/-- look-alikes that `re.IGNORECASE` alone would identify with a site domain (U+0131 dotless i,
+U+0130, U+017F long s, U+212A Kelvin sign) are **not** flagged (FX-C18-dfca416) -/
+example :
+    is_twitter_url "http://tw\u0131tter.com/x".toList = false ∧
+    is_twitter_url_h (some "tw\u0130tter.com".toList) = false ∧
+    is_instagram_url "http://www.\u0131nstagram.com/".toList = false ∧
+    is_instagram_url "http://in\u017ftagram.com".toList = false ∧
+    is_facebook_url_h (some "faceboo\u212a.com".toList) = false ∧
+    is_facebook_url_h (some "FACEBOOK.com".toList) = true := by
+  decide
 
 /-- non-vacuity: hosts in each family, look-alikes outside, through the string forms -/
 example :
@@ -154,8 +153,6 @@ example :
     is_telegram_url "https://t.me/s/x".toList = true ∧
     is_telegram_url "http://chat.me/#t.me".toList = false := by
   decide
-
-example : Plain "www.facebook.com".toList ∧ ¬ Plain "ınstagram.com".toList := by decide
 
 /-! ## youtube, shorteners, should_resolve: corollaries of C09 -/
 
